@@ -285,6 +285,9 @@ func (w *World) lookupObject(env *CEnv, pkg *types.Package, name string) *Val {
 				return &Val{T: w.fnID(f), Typ: o.Type(), Fn: &FnVal{Fn: f}}
 			}
 		}
+		if f := w.l.Prog.FuncValue(o); f != nil {
+			return &Val{T: w.fnID(f), Typ: o.Type(), Fn: &FnVal{Fn: f}}
+		}
 	}
 	return nil
 }
